@@ -467,7 +467,7 @@ pub struct Snapshot {
     pub dedup_read: obs::Read,
 }
 
-const WANT: Want = Want { ids: false, as_map: false, nohint: false, enc: obs::Enclosing::None };
+const WANT: Want = Want { ids: false, as_map: false, nohint: false, enc: obs::Enclosing::None, specs: 0 };
 
 fn first_with_key<'kv, P: Props + ?Sized>(p: &'kv P) -> (Option<Value<'kv>>, usize) {
     let mut first = None;
@@ -875,7 +875,7 @@ pub fn check(case: &SCase, cx: &mut Cx) -> Res {
     macro_rules! prim_nosval {
         ($x:expr, $t:ty, $as:ty, $typed:expr) => {{
             let x: $t = $x;
-            let o = Orig { display: format!("{x}"), debug: format!("{x:?}"), a: sj(&x), b: vj(&(x as $as)) };
+            let o = Orig { display: format!("{x}"), debug: format!("{x:?}"), a: sj(&x), b: vj(&(x as $as)), pspec: check::display_table(&x), dspec: check::debug_table(&x) };
             let exp = expect_prim(&o, Kind::Number, $typed, mode, false);
             finish!(x, exp; Default)
         }};
